@@ -34,8 +34,8 @@ REG.add(Contract(F_CP, '_TableFormSection._parse_data',
     carries=['post', 'raises'], props=['C16', 'C18']))
 
 # ---------------------------------------------------------------- spline factories
-REG.add_class(ClassDecl('atsim/potentials/spline/__init__.py', 'Spline_Point', {'_r': T.Real, '_potential_function': T.Fn}))
-REG.add_class(ClassDecl('atsim/potentials/config/_common.py', 'PotentialFormInstanceTuple', {'parameters': T.List(T.Real), 'potential_form': T.Str}, external=True))
+REG.add_class(ClassDecl('atsim/potentials/spline/__init__.py', 'Spline_Point', {'_r': T.Real, '_potential_function': T.Fn, '_deriv_callable': T.Fn, '_deriv2_callable': T.Fn}))
+REG.add_class(ClassDecl('atsim/potentials/config/_common.py', 'PotentialFormInstanceTuple', {'parameters': T.List(T.Real), 'potential_form': T.Str}, external=True, view_of='PFInstance'))
 REG.add_class(ClassDecl(F_MOD, '_Buck4_Spline_Factory', {}))
 REG.add_class(ClassDecl(F_MOD, '_Exp_Spline_Factory', {}))
 REG.add_class(ClassDecl('atsim/potentials/spline/__init__.py', 'Buck4_Spline', {'_r_min': T.Real}))
@@ -51,6 +51,10 @@ REG.add(Contract('atsim/potentials/spline/__init__.py', 'Exp_Spline.__init__',
     params=[('self', T.New('Exp_Spline')), ('detach_point', T.Obj('Spline_Point')), ('attach_point', T.Obj('Spline_Point'))],
     ensures=lambda v, old, res: [], trusted=True, note='constructor contract used at the factory call site', props=['C16']))
 
+REG.add_class(ClassDecl('atsim/potentials/spline/__init__.py', 'Custom_SplinePotential', {}))
+REG.add(Contract('atsim/potentials/spline/__init__.py', 'Custom_SplinePotential.__init__', params=[('self', T.New('Custom_SplinePotential')), ('spline', T.Any)],
+    ensures=lambda v, old, res: [], trusted=True, note='wraps a spline object into a potential callable: stores the spline and its two points, sets up derivative callables (no evaluation); its three-region behaviour is C10', props=['C16']))
+
 def _b4_ok(v):
     ps = params_of(v.spline_defn)
     return z3.And(z3.Length(ps) == 1, pt_r(v.detach_point) < ps[0], ps[0] < pt_r(v.attach_point))
@@ -58,13 +62,13 @@ def _b4_ok(v):
 REG.add(Contract(F_MOD, '_Buck4_Spline_Factory.build_spline',
     params=[('self', T.Obj('_Buck4_Spline_Factory')), ('detach_point', T.Obj('Spline_Point')), ('attach_point', T.Obj('Spline_Point')), ('spline_defn', T.Obj('PotentialFormInstanceTuple'))],
     ensures=lambda v, old, res: [_b4_ok(v)], post_names=['returns-only-for-one-parameter-strictly-between-the-points'],
-    raises_when=lambda v, old, exc: [z3.BoolVal(exc.cls == 'ConfigurationException'), z3.Not(_b4_ok(v))], on_raise=lambda v, old: [],
+    raises_when=lambda v, old, exc: [z3.BoolVal(exc.cls == 'ConfigurationException'), z3.Not(_b4_ok(v))], on_raise=lambda v, old: [z3.Not(_b4_ok(v))], raises_classes=['ConfigurationException'],
     carries=['post', 'raises'], props=['C16', 'C10']))
 
 REG.add(Contract(F_MOD, '_Exp_Spline_Factory.build_spline',
     params=[('self', T.Obj('_Exp_Spline_Factory')), ('detach_point', T.Obj('Spline_Point')), ('attach_point', T.Obj('Spline_Point')), ('spline_defn', T.Obj('PotentialFormInstanceTuple'))],
     ensures=lambda v, old, res: [z3.Length(params_of(v.spline_defn)) == 0], post_names=['returns-only-without-parameters'],
-    raises_when=lambda v, old, exc: [z3.BoolVal(exc.cls == 'ConfigurationException'), z3.Length(params_of(v.spline_defn)) > 0], on_raise=lambda v, old: [],
+    raises_when=lambda v, old, exc: [z3.BoolVal(exc.cls == 'ConfigurationException'), z3.Length(params_of(v.spline_defn)) > 0], on_raise=lambda v, old: [z3.Length(params_of(v.spline_defn)) > 0], raises_classes=['ConfigurationException'],
     carries=['post', 'raises'], props=['C16', 'C10']))
 
 # ---------------------------------------------------------------- [Species] values: text -> int / float / text by property name
